@@ -547,7 +547,7 @@ class Inliner:
                     )
                     return string[:rolestart], [], string[textend:], [msg]
                 return self.phrase_ref(
-                    string[:matchstart], string[textend:], rawsource, escaped
+                    string[:matchstart], string[textend:], rawsource, escaped, lineno
                 )
             else:
                 rawsource = unescape(string[rolestart:textend], True)
@@ -561,7 +561,12 @@ class Inliner:
         return string[:matchstart], [], string[matchend:], [msg]
 
     def phrase_ref(
-        self, before: str, after: str, rawsource: str, escaped: str
+        self,
+        before: str,
+        after: str,
+        rawsource: str,
+        escaped: str,
+        lineno: Optional[int] = None,
     ) -> Tuple[str, List[nodes.ConcreteNode], str, List[nodes.system_message]]:
         # `text` is ignored (since 0.16)
         match = self.patterns.embedded_link.search(escaped)
@@ -593,6 +598,14 @@ class Inliner:
                 text = alias
                 unescaped = unescape(text)
                 rawtext = rawaliastext
+            if not text:
+                # "`<_>`_": no link text, and the embedded alias is an empty name, so
+                # there is nothing to show and nothing to refer to.
+                msg = self.reporter.warning(
+                    "Hyperlink reference with neither text nor a target name.",
+                    line=lineno,
+                )
+                return before, [], after, [msg]
         else:
             text = escaped
             unescaped = unescape(text)
